@@ -42,5 +42,12 @@ Definition mf_to_lower_bound (n : nat) (v : N -> Q) (t : table) : option Q := mf
 (* mul_factor_lower_upper_bound(incomplete_game) *)
 Definition mf_lower_upper_bound (n : nat) (t : table) : option Q := mf_factor n (mf_hi t) (mf_lo t).
 
-(* scaling a game / a table by a constant (used by the scale-invariance theorems and the examples) *)
-Definition mf_scale_fun (c : Q) (f : N -> Q) (s : N) : Q := c * f s.
+(* a value vector given as the list of its 2^n entries (driver, examples) *)
+Definition mf_of_list (l : list Q) (s : N) : Q := nth (N.to_nat s) l 0.
+
+(* the four results for one game v, one approximating game a and one table (driver command `mf`) *)
+Definition mf_all (n : nat) (v a : list Q) (t : table) : list (option Q) :=
+  [ mf_to_approximation n (mf_of_list v) (mf_of_list a);
+    mf_upper_to_approximation n (mf_of_list a) t;
+    mf_to_lower_bound n (mf_of_list v) t;
+    mf_lower_upper_bound n t ].
